@@ -22,6 +22,26 @@ NEEDS = {
  "C17-prefix-resolved-at-tree-root": ("C17", ["C17"], "absolute path looked up from a node grafted by another module: the prefix is resolved in the augmented module instead of the module that defines the start node"),
  "C18-include-mark-nested": ("C18", ["C18"], "A imports B imports C, C missing at the first Process and loaded later: A stays marked done with an unresolved import"),
  "C19-double-checked-byns": ("C19", ["C19"], "first-time namespace lookup in one goroutine overlapping any namespace lookup in another: unlocked map read races with the locked insert"),
+ "C01b-augment-leaflist-guard": ("C01", ["C01", "C07"], "augment whose target is a leaf-list (IsLeaf() is false for it): merge writes into a nil map"),
+ "C02b-quoted-plus-concat": ("C02", ["C02"], "three adjacent quoted strings whose middle one is exactly \"+\" are concatenated instead of rejected"),
+ "C03b-value-built-directly": ("C03", ["C03"], "a single-valued plain-argument statement (description, prefix, config, ...) written with a non-empty body: unknown keywords below it are accepted, extensions and descriptions dropped"),
+ "C04b-empty-dir-map-shared": ("C04", ["C04", "C06", "C07"], "an empty container (non-nil, empty child map) copied to two places and augmented in one: both copies share the map (also makes the library overflow its stack on some inputs)"),
+ "C05b-inkeyorder-dedup-before-sort": ("C05", ["C05"], "module X with a revision and module Y whose name is X's name plus a character sorting below '@', both touching one node, and an unlucky map order"),
+ "C06b-uses-records-namespace-early": ("C06", ["C06", "C12"], "grouping with a uses nested below one of its own nodes, used from another module: the nested copies report the defining module's namespace"),
+ "C07b-find-submodule-own-prefix": ("C07", ["C07"], "augment written in a submodule whose path starts with the belongs-to prefix: resolved in the submodule's private tree"),
+ "C08b-leaflist-listattr-islist": ("C08", ["C08", "C06"], "grouping leaf-list used twice, min/max-elements of one instance deviated: the others change too"),
+ "C09b-findexternal-owner-context": ("C09", ["C09"], "foreign-prefixed type inside a submodule whose module binds that prefix differently (or not at all)"),
+ "C10b-contains-before-sort": ("C10", ["C10"], "parent with two disjoint intervals (depth 2) and a child written out of ascending order: a true subset is rejected"),
+ "C11b-submodule-base-owner-imports": ("C11", ["C11"], "prefixed base in a submodule resolved through the owning module's imports instead of the submodule's"),
+ "C12b-lazy-output-kind-input": ("C12", ["C12", "C07"], "augment into the output of an rpc/action that writes no output statement: the on-demand entry has kind input and its nodes are not read-only"),
+ "C13b-process-skips-older-revisions": ("C13", ["C13"], "two revisions of one module loaded: the older one's own imports/includes are never resolved"),
+ "C14b-setnext-skips-name-check": ("C14", ["C14"], "an implicit member repeating an earlier member name is accepted"),
+ "C15b-scale-after-parse": ("C15", ["C15"], "decimal literal with fewer fraction digits than requested whose scaled mantissa overflows int64 wraps silently"),
+ "C16b-token-line-at-emit": ("C16", ["C16"], "syntax error whose offending token is a quoted string spanning lines: line of the closing quote, column of the opening one"),
+ "C17b-dotdot-after-rpc-case": ("C17", ["C17"], "a '..' or '.' step evaluated while standing on an rpc/action node returns nil"),
+ "C18b-resolving-mark-not-cleared": ("C18", ["C18"], "a typedef whose type fails to resolve keeps its cycle mark: every later Process reports a bogus self-reference"),
+ "C19b-resolving-flag-on-builtin-typedefs": ("C19", ["C19"], "independent module sets processed in parallel write a flag on the shared built-in typedef objects (race; transient bogus cycle error)"),
+ "C20b-empty-write-clears-partial": ("C20", ["C20"], "zero-length Write in the middle of a line clears the mid-line flag: the next Write gets a prefix inside the line"),
  "C20-early-out-continued-line": ("C20", ["C20"], "short write of 1..len(prefix) bytes on a Write that continues a partial line returns 0 although caller bytes were written"),
 }
 env = dict(os.environ)
